@@ -3,7 +3,9 @@
  * Buffers are exact-size heap objects of STRIDE*H bytes with STRIDE = W rounded up to 32 (the kernels'
  * documented use is on padded picture rows; a read past the last padded row is reported). */
 #include "verif.h"
+#ifndef V_REAL_SQUARE /* V_REAL_SQUARE: no abstraction, the kernels' own multiplications are encoded (feasible only for <= 2 symbolic pixels) */
 #define V_ABSTRACT_SQUARE 1
+#endif
 #include "ia32_models.h"
 #if defined(VERIF_CBMC) && defined(V_ABSTRACT_SQUARE)
 #include "EbUtility.h"
@@ -30,7 +32,7 @@ void harness(void) {
     uint8_t *in = (uint8_t *)malloc(STRIDE * H), *re = (uint8_t *)malloc(STRIDE * H);
     V_ASSUME(in && re);
     v_sqt_init();
-#if defined(SPARSE_G) && defined(VERIF_CBMC)
+#if defined(SPARSE_G) && defined(VERIF_CBMC) && defined(V_ABSTRACT_SQUARE)
     V_SQT[0] = 0; /* 0*0 = 0: the family still contains the real squares */
 #endif
 #ifdef SPARSE_G
